@@ -9,7 +9,8 @@ NOTE = ("order independence of the specification's observable table proved by TL
         "every permutation of every small reply table expanded in-process (acceptance); override attributes in both orders (entry-point set); "
         "declaration-order twins of reply programs (reversed methods; error-before-success with a data parameter) and routing programs "
         "(interfaces listed in the opposite order, methods reversed) compiled and run: both twins must build and fail exactly the same clauses "
-        "of the same order-free specification")
+        "of the same order-free specification; the overlap check replayed over every tuple of sorted lists in every order, verdict compared "
+        "with the order-free rule (two lists share a name)")
 
 
 def failing(module, cfg, trace, progs_path, sig):
@@ -75,6 +76,9 @@ def run(prop, tier, seed, replay):
                 d = sorted(fa ^ fb, key=str)[:5]
                 rep.violation("routing-twin-differs|%s" % (d[0][0],), "C14: routing programs %s and %s differ only in declaration order "
                               "but behave differently: %s" % (a, b, d), {"difference.json": [list(map(str, x)) for x in d]})
+    # the overlap check over every tuple of lists in every order (the parts of a contract in every order of declaration)
+    from . import merge
+    mp = merge.piece(rep, "quick", seed)
     rc = rep.finish()
     cov = {"states": sp["model"]["distinct"] + rp["model"]["distinct"] + rtp["model"]["distinct"],
            "transitions": sp["model"]["generated"] + rp["model"]["generated"] + rtp["model"]["generated"],
